@@ -44,10 +44,12 @@ TECHNIQUE = ("runtime monitoring: complete enumeration of causal stimulus permut
              "fake reactor/process/clock + gated reference Tor; Deferred, signal and filesystem monitors judged by an "
              "independent event-order oracle after every stimulus")
 LEVEL_TEXT = ("Held on the executions observed: every causally possible order of up to 6 (quick) / 7 (thorough) coarse "
-              "stimuli, each with a temporary and with a caller-supplied data directory, listener line split at sampled "
-              "(quick) / every (thorough) byte offset, when_connected() requested at every position; oracle evaluated "
-              "after every stimulus. Enumeration is complete for the stated alphabet and bound only; configuration "
-              "variants other than the data directory are rotated, not multiplied. Not a proof.")
+              "stimuli, each with a temporary and with a caller-supplied data directory; the listener output split at the "
+              "offsets around the phrase boundaries (quick) / at every byte offset (thorough) for every order of up to 4 "
+              "stimuli; when_connected() requested at every position; oracle evaluated after every stimulus, after the "
+              "reactor's shutdown triggers and after a final forced process end. Enumeration is complete for the stated "
+              "alphabet and bound only; configuration variants other than the data directory are rotated by the seed, "
+              "not multiplied. Not a proof.")
 LEVEL_NOTE = ("Trusted: vf.fakereactor (process/clock/connection doubles), vf.faketor FakeTor + gating subclass, Link "
               "(no re-entrant delivery), the real filesystem under a per-shard scratch TMPDIR. Interpretation: a timeout "
               "elapsing after 100% is not a launch timeout, so TERM sent then is judged (clause "
@@ -387,6 +389,7 @@ class Run(object):
         self.data_dir = None
         self.already_called_seen = 0
         self.signals_before = 0
+        self.launch_fired_before_tmo = False
 
     # -- plumbing ---------------------------------------------------------------
     def V(self, clause, cls, detail):
@@ -640,6 +643,7 @@ class Run(object):
         elif atom == "tmo":
             first = self.timeout_elapsed_at is None
             self.signals_before = len(proc.signals) if proc else 0
+            self.launch_fired_before_tmo = bool(self.L.fired)
             if first:
                 self.timeout_elapsed_at = self.step_no
                 if self.t100 is None and self.launch_failed_due is None:
@@ -761,11 +765,11 @@ class Run(object):
             new = list(self.proc.signals[self.signals_before:])
             if self.timeout_elapsed_at == self.step_no and self.exited_at is None:
                 rec.count("timeouts_elapsed_judged")
-                if self.t100 is None:
+                if self.t100 is None and not self.launch_fired_before_tmo:
                     rec.count("timeouts_before_bootstrap_judged")
                     if "TERM" not in new:
                         self.V("timeout-without-term-signal", ocls, {"signals_sent_on_timeout": new})
-                elif new:
+                elif self.t100 is not None and new:
                     self.V("term-signalled-after-bootstrap-complete", ocls, {"signals_sent_on_timeout": new})
         # (4) failure is due
         if self.launch_failed_due == "exit" and not self.L.fired:
